@@ -16,11 +16,15 @@ RULE = ("random histories: 1-6 aircraft on continuous trajectories (<= 600 kt ai
         "after every call; non-trivial = history with at least one position update")
 
 
-def pos_frame(rng, addr, tc, lat, lon, i, base, altfield=None):
+def pos_frame(rng, addr, tc, lat, lon, i, base, altfield=None, gate_fails=False):
     e = cpr.encode(F(lat), F(lon), i, base)
     fields = [(21, 1, i), (22, 17, e["yz"]), (39, 17, e["xz"])]
     if base == 90:
-        fields += [(5, 7, rng.randrange(2, 100)), (12, 1, 1)]     # movement + valid track so that the velocity gate passes
+        if gate_fails:
+            # no usable ground speed / track: process_raw must skip the frame (nothing stored, nothing decoded from it)
+            fields += rng.choice([[(5, 7, rng.choice([0, 125, 126, 127])), (12, 1, 1)], [(5, 7, rng.randrange(2, 100)), (12, 1, 0)]])
+        else:
+            fields += [(5, 7, rng.randrange(2, 100)), (12, 1, 1)]     # movement + valid track so that the velocity gate passes
     f = spec.adsb_frame(rng, tc, fields, df=17, icao=addr)
     return hex_of(f), e
 
@@ -31,7 +35,7 @@ def other_frame(rng, addr, kind):
     elif kind == "vel":
         f = spec.adsb_frame(rng, 19, [(5, 3, rng.randrange(1, 5))], df=17, icao=addr)
     elif kind == "status":
-        f = spec.adsb_frame(rng, rng.choice([28, 29, 31]), [], df=17, icao=addr)
+        f = spec.adsb_frame(rng, rng.choice([28, 29, 31, 31, 20, 21, 22, 0, 23, 27, 30]), [], df=17, icao=addr)
     else:
         f = spec.adsb_frame(rng, rng.randrange(32), [], df=rng.choice([17, 18]), icao=addr)
     return hex_of(f)
@@ -109,12 +113,14 @@ def gen_history(rng, thorough):
                     a["surface"] = not a["surface"] and False
                 base = 90 if a["surface"] else 360
                 tc = rng.randrange(5, 9) if a["surface"] else rng.randrange(9, 19)
+                gate_fails = a["surface"] and rng.random() < 0.15
                 try:
-                    m, e = pos_frame(rng, a["addr"], tc, a["lat"], a["lon"], a["i"], base)
+                    m, e = pos_frame(rng, a["addr"], tc, a["lat"], a["lon"], a["i"], base, gate_fails=gate_fails)
                 except ValueError:
                     continue
                 key = "%06X" % a["addr"]
-                truth[(key, t)] = (a["lat"], a["lon"], float(e["dlon"]) / 262144.0)
+                if not gate_fails:
+                    truth[(key, t)] = (a["lat"], a["lon"], float(e["dlon"]) / 262144.0)
                 adsb.append((t, m.lower() if lower else m))
                 seen_adsb.add(key)
             elif r < 0.78:
